@@ -386,6 +386,16 @@ class _Norm(ast.NodeTransformer):
         self.generic_visit(n)
         if isinstance(n.test, ast.Constant) and n.test.value == 1 and n.test.value is not True:
             n.test = ast.copy_location(ast.Constant(value=True), n.test)
+        # N31: while True: if T: break; BODY  ->  while not T: BODY   (the exit test is the first thing every iteration does)
+        if isinstance(n.test, ast.Constant) and n.test.value is True and not n.orelse and n.body and isinstance(n.body[0], ast.If) and \
+                len(n.body[0].body) == 1 and isinstance(n.body[0].body[0], ast.Break) and \
+                not any(isinstance(x, ast.NamedExpr) for x in ast.walk(n.body[0].test)):
+            first = n.body[0]
+            rest = list(first.orelse) + list(n.body[1:])
+            if rest:
+                neg = self.visit(ast.copy_location(ast.UnaryOp(op=ast.Not(), operand=first.test), first.test))
+                n.test = neg
+                n.body = rest
         # N21: while (x := e): BODY  ->  while True: x = e; if not x: break; BODY      (no else clause)
         if isinstance(n.test, ast.NamedExpr) and not n.orelse and isinstance(n.test.target, ast.Name):
             x = n.test.target.id
@@ -483,6 +493,41 @@ class _Norm(ast.NodeTransformer):
                 return ast.copy_location(ast.If(test=strict, body=n.orelse, orelse=n.body), n)
         return n
 
+    def _next_to_for(self, stmts):
+        """N34: F = next(IT, None); x = E if F is not None else None  ->  x = None; for F in IT: x = E; break
+        (F bound once and read only in that conditional expression)"""
+        out = []
+        i = 0
+        while i < len(stmts):
+            st = stmts[i]
+            nx = stmts[i + 1] if i + 1 < len(stmts) else None
+            if isinstance(st, ast.Assign) and len(st.targets) == 1 and isinstance(st.targets[0], ast.Name) and isinstance(st.value, ast.Call) and \
+                    isinstance(st.value.func, ast.Name) and st.value.func.id == 'next' and len(st.value.args) == 2 and \
+                    isinstance(st.value.args[1], ast.Constant) and st.value.args[1].value is None and \
+                    isinstance(nx, ast.Assign) and len(nx.targets) == 1 and isinstance(nx.targets[0], ast.Name) and isinstance(nx.value, ast.IfExp):
+                f = st.targets[0].id
+                t = nx.value.test
+                pos = isinstance(t, ast.Compare) and len(t.ops) == 1 and isinstance(t.left, ast.Name) and t.left.id == f and \
+                    isinstance(t.comparators[0], ast.Constant) and t.comparators[0].value is None
+                if pos and isinstance(t.ops[0], ast.IsNot):
+                    val, other = nx.value.body, nx.value.orelse
+                elif pos and isinstance(t.ops[0], ast.Is):
+                    val, other = nx.value.orelse, nx.value.body
+                else:
+                    val = None
+                if val is not None and isinstance(other, ast.Constant) and other.value is None and self.counts.get(f, (0, 0))[0] == 1 and \
+                        self.counts.get(f, (0, 0))[1] == 1 + sum(1 for x in ast.walk(val) if isinstance(x, ast.Name) and x.id == f):
+                    x = nx.targets[0].id
+                    out.append(ast.copy_location(ast.Assign(targets=[ast.Name(id=x, ctx=ast.Store())], value=ast.Constant(value=None)), st))
+                    loop = ast.For(target=ast.Name(id=f, ctx=ast.Store()), iter=st.value.args[0],
+                                   body=[ast.Assign(targets=[ast.Name(id=x, ctx=ast.Store())], value=val), ast.Break()], orelse=[])
+                    out.append(ast.copy_location(loop, st))
+                    i += 2
+                    continue
+            out.append(st)
+            i += 1
+        return out
+
     def _copy_prop(self, stmts):
         """N32: after a plain copy `x = y` (two names), the plain assignments that follow read y where they read x, until x or y
         is written again (`off = offset; end = off + n` is `end = offset + n`).  Only the right-hand sides of plain assignments to
@@ -504,7 +549,7 @@ class _Norm(ast.NodeTransformer):
         return out
 
     def _block(self, stmts):
-        stmts = self._copy_prop(self._list_extends(self._split_tuples(stmts)))
+        stmts = self._copy_prop(self._next_to_for(self._list_extends(self._split_tuples(stmts))))
         out = []
         i = 0
         while i < len(stmts):
